@@ -312,8 +312,8 @@ theorem wrapStageFull_canon (cfg : Config) (lines : List Line) (W0 : Nat → Boo
             · simp at h1
             · simp at h1
               obtain ⟨_, rfl⟩ := h1
-              obtain ⟨_, news2, _, hs2, hp2, _⟩ := applyLinesS_relW 1 lines _ _ stc _ ftb ftb ftc solsa solsc
-                (⟨rfl, fun j t t' a b => by rw [a] at b; cases b; exact ⟨LR.refl _, fun _ => rfl⟩⟩ : RelW (fun _ => True) ftb ftb) hc
+              obtain ⟨_, news2, _, hs2, hp2, _⟩ := applyLinesS_relW 1 lines _ _ stc (fun _ => False) _ ftb ftb ftc solsa solsc
+                (⟨rfl, fun j t t' a b => by rw [a] at b; cases b; exact ⟨LR.refl _ _, fun _ => FmtEq.refl _ _⟩⟩ : RelW (fun _ => False) (fun _ => True) ftb ftb) hc
               rw [hs2] at hx
               rcases List.mem_append.1 hx with hx | hx
               · exact hx
